@@ -145,23 +145,24 @@ def run_impl(c):
     elif op == 'nks':
         nb = np.array(c['nb'])
         if c['cls']:
-            r = call_impl(lambda: int(cpl.NKSRule(c['rule'])(nb, 0, 1)))
+            r = call_impl(lambda: int(cpl.NKSRule(_np_rule(c))(nb, 0, 1)))
         else:
-            r = call_impl(lambda: int(cpl.nks_rule(nb, c['rule'])))
+            r = call_impl(lambda: int(cpl.nks_rule(nb, _np_rule(c))))
     elif op == 'class_reuse':
         L = len(c['calls'][0]['nb'])
         scheme = 'nks' if c['scheme'] == 'nks' else None
         pows = (2 ** np.arange(L)[::-1]) if c['pows'] else None
 
         def _reuse():
-            obj = cpl.BinaryRule(c['rule'], scheme, pows) if (c['binary'] or scheme is None) else cpl.NKSRule(c['rule'])
+            obj = cpl.BinaryRule(_np_rule(c), scheme, pows) if (c['binary'] or scheme is None) else cpl.NKSRule(_np_rule(c))
             return [int(obj(np.array(k['nb']), k['c'], k['t'])) for k in c['calls']]
         r = call_impl(_reuse)
     else:
         nb = np.array(c['nb'], dtype=c.get('nb_dtype', 'int64'))
         L = len(c['nb'])
-        rule = c['rule']
+        rule = _np_rule(c)
         if c['rule_form'] == 'array':
+            rule = c['rule']
             bits = [int(x) for x in bin(rule)[2:].zfill(2 ** L)]
             rule = bits if c.get('rule_list') else np.array(bits)   # both accepted forms: list and ndarray
         scheme = 'nks' if c['scheme'] == 'nks' else None
@@ -231,6 +232,59 @@ def shrink(c):
         yield dict(c, bits=c['bits'][:-1])
     if c['op'] == 'int_to_bits' and c['d'] > 1:
         yield dict(c, d=c['d'] // 2, num=c['num'] % (2 ** (c['d'] // 2)))
+
+
+
+def _round5_cases(rng, tier):
+    """Round 5: (a) the rule NUMBER held in a NumPy integer scalar (what iterating np.arange(256) or drawing
+    rng.integers gives) in every call form, classes included; (b) radius 0: a one-cell neighbourhood, rules 0..3,
+    complete."""
+    np_types = ['uint8', 'int16', 'int32', 'int64', 'uint64', 'intp']
+    for R in range(256):
+        if tier == 'quick' and R % 3:
+            continue
+        for ty in (np_types if tier == 'thorough' else [rng.choice(np_types), 'int64']):
+            if ty == 'uint8' or R < 2 ** 15:
+                v = rng.randrange(8)
+                nb = [(v >> 2) & 1, (v >> 1) & 1, v & 1]
+                yield {'kind': 'nprule/nks', 'op': 'nks', 'nb': nb, 'rule': R, 'cls': bool(rng.randint(0, 1)), 'rule_np': ty}
+                yield {'kind': 'nprule/binary_rule', 'op': 'binary_rule', 'nb': nb, 'rule': R, 'rule_form': 'int',
+                       'scheme': rng.choice(['nks', 'default']), 'pows': bool(rng.randint(0, 1)), 'cls': bool(rng.randint(0, 1)),
+                       'rule_np': ty}
+    for i in range(40 if tier == 'quick' else 400):
+        nb = [rng.randint(0, 1) for _ in range(5)]
+        R = rng.getrandbits(32)
+        ty = rng.choice(['int64', 'uint64', 'uint32'])
+        yield {'kind': 'nprule/radius_2', 'op': 'binary_rule', 'nb': nb, 'rule': R, 'rule_form': 'int',
+               'scheme': rng.choice(['nks', 'default']), 'pows': bool(rng.randint(0, 1)), 'cls': bool(rng.randint(0, 1)),
+               'rule_np': ty}
+        yield {'kind': 'nprule/class_reuse', 'op': 'class_reuse', 'rule': R, 'scheme': rng.choice(['nks', 'default']),
+               'binary': bool(rng.randint(0, 1)), 'pows': bool(rng.randint(0, 1)), 'rule_np': ty,
+               'calls': [{'nb': [rng.randint(0, 1) for _ in range(5)], 'c': rng.randrange(50), 't': rng.randrange(1, 50)}
+                         for _ in range(rng.randint(2, 4))]}
+    for R in range(4):
+        for b in (0, 1):
+            for rf, pw, cl in _forms():
+                for sch in ('nks', 'default'):
+                    yield {'kind': 'radius0/binary_rule', 'op': 'binary_rule', 'nb': [b], 'rule': R, 'rule_form': rf,
+                           'scheme': sch, 'pows': pw, 'cls': cl}
+            for cl in (False, True):
+                yield {'kind': 'radius0/nks', 'op': 'nks', 'nb': [b], 'rule': R, 'cls': cl}
+
+
+_generate_r4 = generate
+
+
+def generate(rng, tier):
+    for c in _generate_r4(rng, tier):
+        yield c
+    for c in _round5_cases(rng, tier):
+        yield c
+
+
+def _np_rule(c):
+    """the rule number as the case wants it handed over (Python int, or a NumPy integer scalar)"""
+    return getattr(np, c['rule_np'])(c['rule']) if c.get('rule_np') else c['rule']
 
 
 # ------------------------------------------------------------------ source tie (appended; harness/translate.py)
